@@ -8,6 +8,11 @@ def close(a, b, tol=1e-9):
 
 def finish(h):
     ad = h.ad
+    # drain phase (fault-free closing phase of some runs): everything that was put must have been retrievable
+    if getattr(h, "drain_stuck", False) and h.held > 0:
+        left = sorted(r.name for r in h.items.values() if r.state == "inside")
+        h.violate("C02", "stuck-inside", f"after withdrawing every reservation, a single retrieval request waits for ever at t={h.env.now}: no event is scheduled "
+                  f"and {left} never become retrievable (items put into the store are lost to every consumer)", feat=("cg", "cp"))
     # C11: the Buffer edge draws its delay exactly once per accepted put (ill-formed puts excluded: the
     # draw happens before the store validates the token, which C07 does not forbid)
     if h.kind == "buf" and ad.form != "constant":
